@@ -21,6 +21,8 @@ impl Template {
 impl Renderable for Template {
     fn render_to(&self, writer: &mut dyn Write, runtime: &dyn Runtime) -> Result<()> {
         for el in &self.elements {
+            #[cfg(feature = "verif-hooks")]
+            crate::verif::yield_point("template.element");
             el.render_to(writer, runtime)?;
 
             // Did the last element we processed set an interrupt? If so, we
